@@ -178,7 +178,7 @@ def enc_graph(g) -> list[str]:
 # which revision of two repaired spots the model restates (F1: _match_node fails the match on missing outputs,
 # /repo 778bd07; F7a: BacktrackingOr.clone without tag_var, /repo e372708).  Pinned to the repaired, committed
 # revision; c06.check_fixed_findings() reports a VIOLATION if the working tree shows the pre-fix behaviour.
-FLAGS = "11"
+FLAGS = "11000"
 
 
 def case_line(mode: str, case, pattern_tokens=None, graph_tokens=None) -> str:
@@ -501,7 +501,10 @@ def commute_masks(p):
     space = []
     for n in p["nodes"]:
         ident = op_identifier(n)
-        space.append([False, True] if ident is not None and ident[0] == "" and ident[1] in COMMUTATIVE_OPS else [False])
+        ok = ident is not None and ident[0] == "" and ident[1] in COMMUTATIVE_OPS
+        if len(FLAGS) > 3 and FLAGS[3] == "1":  # repair C06-F7b: only nodes written with two inputs are swapped
+            ok = ok and len(n["inputs"]) == 2
+        space.append([False, True] if ok else [False])
     return list(itertools.product(*space))
 
 
